@@ -35,6 +35,8 @@ def table():
         mach = [p for p, r in det.items() if isinstance(r, dict) and r.get('exit') == 2]
         if m.get('status', '').startswith('obsolete') or det.get('_note'):
             status = 'obsolete (' + (m.get('status') or det.get('_note'))[:80] + ')'
+            if hits:
+                status += '; caught by ' + ', '.join(sorted(hits)) + ' while it still applied'
             obsolete += 1
         elif hits:
             status = 'caught by ' + ', '.join(sorted(hits))
